@@ -42,6 +42,7 @@ type Feat struct {
 	Dashes    bool // whitespace-control dashes
 	BigText   bool
 	SpyPrefix string
+	SpyPct    int // probability (percent) that an expression position is wrapped in a spy
 }
 
 type gen struct {
@@ -51,6 +52,7 @@ type gen struct {
 	spyN                 int
 	names                []string // other templates that may be included/imported
 	inApply, inSpaceless bool
+	where                []string // enclosing constructs, innermost last (tags spy ids with their position)
 }
 
 var words = []string{"alpha", "beta", "gamma", "delta", "x", "yz", "Hello World", "a,b,c", "été", "日本", "<b>&\"'</b>", "  pad  ", ""}
@@ -80,7 +82,34 @@ func (g *gen) text() string {
 
 func (g *gen) spyID() string {
 	g.spyN++
-	return fmt.Sprintf("%s%d", g.f.SpyPrefix, g.spyN)
+	pos := "top"
+	if len(g.where) > 0 {
+		pos = g.where[len(g.where)-1]
+	}
+	return fmt.Sprintf("%s%s#%d", g.f.SpyPrefix, pos, g.spyN)
+}
+
+// at generates a piece with the given construct recorded as the enclosing position.
+func (g *gen) at(pos string, f func() string) string {
+	g.where = append(g.where, pos)
+	s := f()
+	g.where = g.where[:len(g.where)-1]
+	return s
+}
+
+// wrapSpy wraps a scalar expression in a spy call with probability SpyPct.
+func (g *gen) wrapSpy(e string) string {
+	if g.f.Spies && g.f.SpyPct > 0 && g.r.P(g.f.SpyPct) {
+		switch g.r.N(3) {
+		case 0:
+			return "spy('" + g.spyID() + "', " + e + ")"
+		case 1:
+			return "(" + e + ")|spyf('" + g.spyID() + "')"
+		default:
+			return "spy('" + g.spyID() + "', " + e + ")|spyf('" + g.spyID() + "')"
+		}
+	}
+	return e
 }
 
 var strVars = []string{"s1", "s2", "p1.Name", "pp.Name", "m1.k1", "m1['k2']", "sl[0]", "u1"}
@@ -222,6 +251,32 @@ func (g *gen) hash(d int) string {
 	return "{" + strings.Join(parts, ", ") + "}"
 }
 
+// condSpy optionally turns a condition into one that runs a fallible callback.
+func (g *gen) condSpy(c string) string {
+	if g.f.Spies && g.f.SpyPct > 0 && g.r.P(g.f.SpyPct) {
+		switch g.r.N(3) {
+		case 0:
+			return "spy('" + g.spyID() + "', s1) is spyt('" + g.spyID() + "')"
+		case 1:
+			return "s1|spyf('" + g.spyID() + "')"
+		default:
+			return "n1 is spyt('" + g.spyID() + "')"
+		}
+	}
+	return c
+}
+
+// seqSpy optionally passes a for sequence through a fallible callback.
+func (g *gen) seqSpy(l string) string {
+	if g.f.Spies && g.f.SpyPct > 0 && g.r.P(g.f.SpyPct) {
+		if g.r.P(50) {
+			return "spy('" + g.spyID() + "', l1)"
+		}
+		return "l1|spyf('" + g.spyID() + "')"
+	}
+	return l
+}
+
 func (g *gen) dash() string {
 	if g.f.Dashes && g.r.P(15) {
 		return "-"
@@ -252,19 +307,19 @@ func (g *gen) seg(d int) string {
 	case 0, 1, 2:
 		return g.text()
 	case 3, 4, 5:
-		return g.print(g.scalar(2))
+		return g.print(g.wrapSpy(g.scalar(2)))
 	case 6:
-		s := g.open("if "+g.boolean(2)) + g.body(d-1)
+		s := g.open("if "+g.at("if-cond", func() string { return g.condSpy(g.boolean(2)) })) + g.at("if-body", func() string { return g.body(d - 1) })
 		if g.r.P(40) {
-			s += g.open("elseif "+g.boolean(1)) + g.body(d-1)
+			s += g.open("elseif "+g.at("elseif-cond", func() string { return g.condSpy(g.boolean(1)) })) + g.at("elseif-body", func() string { return g.body(d - 1) })
 		}
 		if g.r.P(50) {
-			s += g.open("else") + g.body(d-1)
+			s += g.open("else") + g.at("else-body", func() string { return g.body(d - 1) })
 		}
 		return s + g.open("endif")
 	case 7, 8:
 		v := pick(g.r, []string{"it", "x", "row"})
-		s := g.open("for "+v+" in "+g.list(1)) + g.print(v) + g.print("loop.index") + g.body(d-1)
+		s := g.open("for "+v+" in "+g.at("for-seq", func() string { return g.seqSpy(g.list(1)) })) + g.print(v) + g.print("loop.index") + g.at("for-body", func() string { return g.body(d - 1) })
 		if g.r.P(30) {
 			s += g.open("else") + g.text()
 		}
@@ -277,13 +332,13 @@ func (g *gen) seg(d int) string {
 		return g.open("for k, v in l1") + g.print("k") + ":" + g.print("v") + g.open("endfor")
 	case 10:
 		v := pick(g.r, []string{"t1", "t2", "s1", "n1"})
-		return g.open("set "+v+" = "+g.scalar(2)) + g.print(v)
+		return g.open("set "+v+" = "+g.at("set-value", func() string { return g.wrapSpy(g.scalar(2)) })) + g.print(v)
 	case 11:
 		if g.f.Include && len(g.names) > 0 {
 			name := pick(g.r, g.names)
 			s := "include '" + name + "'"
 			if g.r.P(40) {
-				s += " with {'s1': " + g.scalar(1) + ", 'extra': " + g.scalar(0) + "}"
+				s += " with {'s1': " + g.at("include-with", func() string { return g.wrapSpy(g.scalar(1)) }) + ", 'extra': " + g.scalar(0) + "}"
 				if g.r.P(40) {
 					s += " only"
 				}
@@ -301,8 +356,8 @@ func (g *gen) seg(d int) string {
 	case 13:
 		if g.f.Macros {
 			m := fmt.Sprintf("mac%d", g.r.N(100))
-			def := g.open("macro "+m+"(a, b = "+g.strLit()+")") + "[" + g.print("a") + "|" + g.print("b") + "]" + g.body(0) + g.open("endmacro")
-			call := g.print(m + "(" + g.scalar(1) + ")")
+			def := g.open("macro "+m+"(a, b = "+g.at("macro-default", func() string { return g.wrapSpy(g.strLit()) })+")") + "[" + g.print("a") + "|" + g.print("b") + "]" + g.at("macro-body", func() string { return g.body(0) }) + g.open("endmacro")
+			call := g.print(m + "(" + g.at("macro-arg", func() string { return g.wrapSpy(g.scalar(1)) }) + ")")
 			if g.r.P(40) {
 				call += g.print("_self." + m + "(" + g.scalar(0) + ", " + g.scalar(0) + ")")
 			}
@@ -314,7 +369,7 @@ func (g *gen) seg(d int) string {
 			return g.text()
 		}
 		g.inApply = true
-		s := g.open("apply "+pick(g.r, []string{"upper", "lower", "trim", "escape"})) + g.body(d-1) + g.open("endapply")
+		s := g.open("apply "+pick(g.r, []string{"upper", "lower", "trim", "escape"})) + g.at("apply-body", func() string { return g.body(d - 1) }) + g.open("endapply")
 		g.inApply = false
 		return s
 	case 15:
@@ -322,7 +377,7 @@ func (g *gen) seg(d int) string {
 			return g.text()
 		}
 		g.inSpaceless = true
-		s := g.open("spaceless") + "<div> " + g.body(d-1) + " </div>  <b> x </b>" + g.open("endspaceless")
+		s := g.open("spaceless") + "<div> " + g.at("spaceless-body", func() string { return g.body(d - 1) }) + " </div>  <b> x </b>" + g.open("endspaceless")
 		g.inSpaceless = false
 		return s
 	case 16:
@@ -435,7 +490,7 @@ func genProgram(r *R, f Feat) *Program {
 		n := r.Range(1, 2)
 		for i := 0; i < n; i++ {
 			name := fmt.Sprintf("%spart%d", dir, i)
-			p.Templates = append(p.Templates, mk(name, r.Range(1, 3), 1))
+			p.Templates = append(p.Templates, Tmpl{Name: name, Segs: strings.Split(g.at("included", func() string { return strings.Join(mk(name, r.Range(1, 3), 1).Segs, "\x01") }), "\x01")})
 			g.names = append(g.names, name)
 		}
 	}
@@ -446,14 +501,14 @@ func genProgram(r *R, f Feat) *Program {
 		nb := r.Range(1, 3)
 		base.Segs = append(base.Segs, g.text())
 		for i := 0; i < nb; i++ {
-			base.Segs = append(base.Segs, g.open(fmt.Sprintf("block b%d", i))+g.body(1)+g.open("endblock"), g.text())
+			base.Segs = append(base.Segs, g.open(fmt.Sprintf("block b%d", i))+g.at("parent-block", func() string { return g.body(1) })+g.open("endblock"), g.text())
 		}
 		p.Templates = append(p.Templates, base)
 		ref := base.Name
 		main.Segs = append(main.Segs, g.open("extends '"+ref+"'"))
 		for i := 0; i < nb; i++ {
 			if r.P(70) {
-				b := g.body(2)
+				b := g.at("child-block", func() string { return g.body(2) })
 				if r.P(40) {
 					b += g.print("parent()")
 				}
